@@ -110,8 +110,8 @@ func runC11InBubble(c c11Case) (out kit.Outcome) {
 		cl     *vtCaller
 		expiry time.Duration
 	}
-	var backlog []mw  // arrival order (oldest first)
-	var held []*vtCaller // granted, token not completed
+	var backlog []mw           // arrival order (oldest first)
+	var held []*vtCaller       // granted, token not completed
 	expected := map[int]bool{} // caller id -> expected ok, for callers expected to have returned
 	var sawChoice, sawGoneAhead bool
 	goneAhead := false // some caller that was ahead in line left by timeout/cancel
